@@ -534,6 +534,10 @@ class TokenAwareBinding(object):
     def replicas(self, key):
         return [self.inv.get(r.endpoint, 0) for r in self.md.get_replicas(self.ks, self.PL.key_bytes(key))]
 
+    def alter(self, strat, via="update"):
+        """AlterReplication: new settings for the keyspace arrive through a schema refresh."""
+        self.PL.install_keyspace(self.md, self.ks, strat, via)
+
     def plan(self, key, child, up, dist, shuffle, interleave=False):
         """child: list of instance host numbers; up/dist: dict instance host -> "T"/"F"/"N" / distance name.
         Returns (list of instance host numbers, error text or None).
